@@ -90,6 +90,10 @@ structure Prog where
   own : Nat → Bool
   /-- addresses the wavefront may write (nobody else reads or writes them) -/
   wown : Nat → Bool
+  /-- the compute unit BEFORE the two repairs (`getpc_differs_before_fix`, `vmcnt_skips_empty_access_before_fix`):
+      the scalar unit ran `alu.Run` with the PC still on the instruction, and a FLAT access without
+      transactions completed at once -/
+  oldCU : Bool := false
 
 def Prog.window (P : Prog) (a n : Nat) : List Nat := (List.range n).map fun k => P.imem (a + k)
 
@@ -164,23 +168,26 @@ def afterWait (H : HState) (vm lgkm : Nat) : HState :=
 /-- one instruction through the check. `static = true`: the check a compiler can do (addresses
     unknown, every FLAT instruction counts: `fp = []`, `empty = false`). `static = false`: next to the
     emulator, with the byte ranges `fp` the access touches and `empty` = the coalescer forms no
-    transaction (EXEC = 0) — such an access is checked but does NOT count as in flight, because
-    `executeFlatLoad/Store` return before `OutstandingVectorMemAccess++`. -/
-def hstep (static : Bool) (H : HState) (i : Inst) (fp : Ranges) (empty : Bool) : Option HState :=
+    transaction (EXEC = 0) — such an access is checked, is not counted, and (repaired compute unit)
+    executes only after every older vector access of the wavefront has returned: nothing is in flight
+    after it. (`old`: before the repair it completed at once and the set stayed as it was.) -/
+def hstep (static old : Bool) (H : HState) (i : Inst) (fp : Ranges) (empty : Bool) : Option HState :=
   match i.kind with
   | .wait vm lgkm => some (afterWait H vm lgkm)
   | .endpgm => some {}
   | .nop => some H
   | .alu _ => if regOK H i then some H else none
   | .branch => if regOK H i then some H else none
-  | .vload => if regOK H i && memOK static H i fp then some (if empty then H else { H with pv := H.pv ++ [(i, fp)] }) else none
-  | .vstore => if regOK H i && memOK static H i fp then some (if empty then H else { H with pv := H.pv ++ [(i, fp)] }) else none
+  | .vload => if regOK H i && memOK static H i fp then
+      some (if empty then (if old then H else { H with pv := [] }) else { H with pv := H.pv ++ [(i, fp)] }) else none
+  | .vstore => if regOK H i && memOK static H i fp then
+      some (if empty then (if old then H else { H with pv := [] }) else { H with pv := H.pv ++ [(i, fp)] }) else none
   | .sload => if regOK H i && memOK static H i fp then some { H with ps := H.ps ++ [(i, fp)] } else none
 
 /-- the static check of a straight-line instruction sequence: a decidable predicate on the program -/
 def hcheckFrom (H : HState) : List Inst → Bool
   | [] => true
-  | i :: is => match hstep true H i [] false with
+  | i :: is => match hstep true false H i [] false with
     | none => false
     | some H' => hcheckFrom H' is
 
@@ -199,7 +206,7 @@ def ehstep (P : Prog) (x : EState × HState) : Option (EState × HState) :=
   match P.instAt x.1.pc with
   | none => none
   | some i =>
-    match hstep false x.2 i (i.fpl x.1.regs) (i.noTxn x.1.regs), estep P x.1 with
+    match hstep false P.oldCU x.2 i (i.fpl x.1.regs) (i.noTxn x.1.regs), estep P x.1 with
     | some H', some E' => if accOK P i x.1.regs then some (E', H') else none
     | _, _ => none
 
@@ -225,13 +232,12 @@ def StraightLine (P : Prog) : Nat → List Inst → Prop
 
 def Inst.isVMem (i : Inst) : Bool := match i.kind with | .vload => true | .vstore => true | _ => false
 
-/-- every FLAT instruction the emulator executes (within `n` steps) forms at least one transaction,
-    and every access stays inside owned memory -/
-def noEmptyRun (P : Prog) : Nat → EState → Bool
+/-- every access the emulator executes (within `n` steps) stays inside owned memory -/
+def accRun (P : Prog) : Nat → EState → Bool
   | 0, _ => true
   | n + 1, s => if s.done then true else
     match P.instAt s.pc, estep P s with
-    | some i, some s' => (!i.isVMem || !i.noTxn s.regs) && accOK P i s.regs && noEmptyRun P n s'
+    | some i, some s' => accOK P i s.regs && accRun P n s'
     | _, _ => true
 
 /-! ## the timing compute unit, one wavefront -/
@@ -286,6 +292,12 @@ def removeStaleLoop (pc : Nat) : Nat → Nat → List Nat → Option (Nat × Lis
 
 def removeStale (pc st : Nat) (ib : List Nat) : Option (Nat × List Nat) :=
   if ib = [] then some (st, ib) else removeStaleLoop pc (ib.length / 64 + 2) st ib
+
+/-- `ComputeUnit.SetReady` (the PC already points to the next instruction) -/
+def setReady (s : TState) : Option TState :=
+  match removeStale s.pc s.ibStart s.ib with
+  | none => none
+  | some (st, ib) => some { s with ph := .ready, cur := none, ibStart := st, ib := ib }
 
 /-- `UpdatePCAndSetReady` -/
 def advance (s : TState) (i : Inst) : Option TState :=
@@ -350,13 +362,18 @@ def tstep (P : Prog) (gate : TState → Inst → Bool) (s : TState) : Ev → Opt
     | some i =>
       if s.ph = .issued then
         match i.kind with
-        | .alu _ => some { s with regs := i.f s.pc s.regs, ph := .executed }
+        | .alu u =>
+          -- the scalar unit (u = 0) advances the PC before `alu.Run`, as the emulator does
+          if u = 0 ∧ P.oldCU = false then
+            some { s with pc := pcAdd s.pc i.size, regs := i.f (pcAdd s.pc i.size) s.regs, ph := .executed }
+          else some { s with regs := i.f s.pc s.regs, ph := .executed }
         | .branch => some { s with pc := i.tgt s.regs s.pc, ph := .executed }
         | .vload =>
-          if i.noTxn s.regs then advance s i
+          -- no transaction: waits until the older vector accesses have returned, then completes
+          if i.noTxn s.regs then (if P.oldCU = false ∧ s.vm ≠ 0 then none else advance s i)
           else advance { s with vq := s.vq ++ [{ inst := i, r0 := s.regs }], vm := s.vm + 1, lgkm := s.lgkm + 1 } i
         | .vstore =>
-          if i.noTxn s.regs then advance s i
+          if i.noTxn s.regs then (if P.oldCU = false ∧ s.vm ≠ 0 then none else advance s i)
           else advance { s with vq := s.vq ++ [{ inst := i, r0 := s.regs }], vm := s.vm + 1, lgkm := s.lgkm + 1 } i
         | .sload => advance { s with sq := s.sq ++ [{ inst := i, r0 := s.regs }], lgkm := s.lgkm + 1 } i
         | _ => none
@@ -366,7 +383,8 @@ def tstep (P : Prog) (gate : TState → Inst → Bool) (s : TState) : Ev → Opt
     | none => none
     | some i =>
       match i.kind with
-      | .alu _ => if s.ph = .executed then advance s i else none
+      | .alu u =>
+        if s.ph = .executed then (if u = 0 ∧ P.oldCU = false then setReady s else advance s i) else none
       | .branch =>
         -- BranchUnit.runWriteStage: InstBuffer = nil; UpdatePCAndSetReady; InstBufferStartPC = PC &^ 63
         if s.ph = .executed then
@@ -484,12 +502,17 @@ inductive CInst
   | dsw (a d : Nat)         -- ds_write_b32 v_a, v_d
   | dsr (d a : Nat)         -- ds_read_b32 v_d, v_a  (LDS of 1024 bytes; the Go slice panics beyond, here 0)
   | getpc (d : Nat)         -- s_getpc_b64 s[d:d+1]
+  | svcc (v : Nat)          -- s_mov_b64 vcc, v
+  | vcmp (s a : Nat)        -- v_cmp_lt_u32 vcc, s_s, v_a   (a VALU instruction with a scalar result)
+  | vrfl (d a : Nat)        -- v_readfirstlane_b32 s_d, v_a
+  | cbrv (on off : Nat)     -- s_cbranch_vccz (on = 0) / s_cbranch_vccnz (on = 1) simm16
   | endp
 deriving Repr, DecidableEq
 
 def setR (r : RF) (x v : Nat) : RF := fun y => if y = x then v else r y
 
 def EXEC : Nat := 201
+def VCC : Nat := 202
 def execOf (r : RF) : Nat := r EXEC % PCM
 
 def lanes (exec : Nat) : List Nat := (List.range 64).filter fun l => exec.testBit l
@@ -592,6 +615,20 @@ def compile : CInst → Inst
   | .getpc d =>
     { kind := .alu 0, size := 4, rd := [], wr := [sreg d, sreg (d + 1)],
       f := fun p r => setR (setR r (sreg d) (p % M32)) (sreg (d + 1)) (p / M32 % M32) }
+  | .svcc v =>
+    { kind := .alu 0, size := if v ≤ 64 ∨ v = PCM - 1 then 4 else 8, rd := [], wr := [VCC],
+      f := fun _ r => setR r VCC (v % PCM) }
+  | .vcmp s a =>
+    { kind := .alu 1, size := 4, rd := EXEC :: sreg s :: vregsOf a, wr := [VCC],
+      f := fun _ r => setR r VCC
+        (((lanes (execOf r)).filter fun l => decide (r (sreg s) % M32 < r (vreg a l) % M32)).foldl
+          (fun acc l => acc + 2 ^ l) 0) }
+  | .vrfl d a =>
+    { kind := .alu 1, size := 4, rd := EXEC :: vregsOf a, wr := [sreg d],
+      f := fun _ r => setR r (sreg d) (r (vreg a ((lanes (execOf r)).headD 0)) % M32) }
+  | .cbrv on off =>
+    { kind := .branch, size := 4, rd := [VCC],
+      tgt := fun r p => if decide (r VCC % PCM ≠ 0) = decide (on ≠ 0) then brTarget off p else p }
   | .endp => { kind := .endpgm, size := 4 }
 
 /-- layout: instruction `k` of the list starts at `base + offs k`; its first two bytes hold `k`, the
@@ -648,6 +685,7 @@ def initRegs (seed exec : Nat) : RF := fun x =>
   if ldsCell 0 ≤ x then 0
   else if x = SCC then 0
   else if x = EXEC then exec
+  else if x = VCC then 0
   else if vreg 0 0 ≤ x ∧ x < vreg 0 64 then 4 * (x - vreg 0 0)
   else if vreg 1 0 ≤ x ∧ x < vreg 1 64 then 0
   else regInit seed x
@@ -670,6 +708,10 @@ def parseCInst (s : String) : Option CInst :=
   | ["dsw", a, d] => do pure (.dsw (← a.toNat?) (← d.toNat?))
   | ["dsr", d, a] => do pure (.dsr (← d.toNat?) (← a.toNat?))
   | ["getpc", d] => do pure (.getpc (← d.toNat?))
+  | ["svcc", v] => do pure (.svcc (← hexNat? v))
+  | ["vcmp", a, b] => do pure (.vcmp (← a.toNat?) (← b.toNat?))
+  | ["vrfl", d, a] => do pure (.vrfl (← d.toNat?) (← a.toNat?))
+  | ["cbrv", n, o] => do pure (.cbrv (← n.toNat?) (← hexNat? o))
   | ["end"] => some .endp
   | _ => none
 
@@ -697,13 +739,13 @@ structure Box where
   f : Nat → Nat
 
 @[noinline] def mkRF (lo vs ld : Array Nat) (r : RF) (x : Nat) : Nat :=
-  if x < 202 then lo[x]!
+  if x < 203 then lo[x]!
   else if 1000 ≤ x ∧ x < 1640 then vs[x - 1000]!
   else if 100000 ≤ x ∧ x < 101024 then ld[x - 100000]!
   else r x
 
 @[noinline] def freezeR (r : RF) : Box :=
-  ⟨mkRF ((Array.range 202).map r) ((Array.range 640).map fun k => r (1000 + k))
+  ⟨mkRF ((Array.range 203).map r) ((Array.range 640).map fun k => r (1000 + k))
     ((Array.range 1024).map fun k => r (100000 + k)) r⟩
 
 @[noinline] def mkMem (w f : Array Nat) (m : Mem) (a : Nat) : Nat :=
@@ -754,7 +796,7 @@ def regsStr (r : RF) : String :=
   let vh := ((List.range 10).flatMap fun v => (List.range 64).map fun l => vreg v l).foldl
     (fun h c => mix h (r c)) 14695981039346656037
   let lh := (List.range 256).foldl (fun h a => mix h (r (ldsCell a))) 14695981039346656037
-  s!"s={s} scc={r SCC} exec={toHex (r EXEC)} v={toHex vh} lds={toHex lh}"
+  s!"s={s} scc={r SCC} exec={toHex (r EXEC)} vcc={toHex (r VCC)} v={toHex vh} lds={toHex lh}"
 
 def traceStr (base : Nat) (t : List Nat) : String :=
   if t.isEmpty then "-" else joinWith "," (t.map fun p => toString (p - base))
